@@ -717,8 +717,8 @@ def check_C18(tier, seed):
         assumptions=["documented argument domain taken from the repository's own functional tests: 0 <= min <= max, x >= 0",
                      "not all 2^64 raw outputs: class representatives of every leading-zero class and boundary mantissas"])
     if extra_viol and rcode == 0:
-        os.makedirs(os.path.join(vlib.VERIF, "replays", "C18"), exist_ok=True)
-        rp = os.path.join(vlib.VERIF, "replays", "C18", "ubsan.txt")
+        os.makedirs(os.path.join(vlib.OUTDIR, "replays", "C18"), exist_ok=True)
+        rp = os.path.join(vlib.OUTDIR, "replays", "C18", "ubsan.txt")
         open(rp, "w").write(extra_viol + "\n")
         print("VIOLATION property=C18 replay=%s  (undefined behaviour in the numerical library on a crafted generator state: %s)" % (rp, extra_viol[:300]))
         return 1
